@@ -140,6 +140,8 @@ func c01Run(t *testing.T, tr *kit.Trace, cfg c01Cfg, ops []c01Op) {
 				if rq.query != "" {
 					path += "?" + rq.query
 				}
+				tr.Ev(kit.E{"ev": "HTTPReqSent", "conn": op.Conn, "op": n})
+				tr.Flush() // if the server never answers, the driver never gets past this point
 				got := r.do(rq.method, rq.host, path, hdr)
 				want := o.do(rq.method, rq.host, path, hdr)
 				tr.Ev(kit.E{"ev": "Resp", "conn": op.Conn, "op": n, "status": got.status})
